@@ -15,7 +15,8 @@ from mc.refmodel import wire
 from mc.refmodel.server import typed_eq
 
 A = '__absent__'
-MEMBER = [A, None, True, False, 0, 1, -1, 1.0, 1.5, '', 'a', '2.0', '1.0', [], [1], {}, {'a': 1}]
+MEMBER = [A, None, True, False, 0, 1, -1, 1.0, 1.5, 2.0, '', 'a', '2.0', '1.0', [], [1], {}, {'a': 1}]
+MEMBER_S = [A, None, 1, 1.5, 2.0, 'a', '2.0', [], {'a': 1}]
 ERRORS = [A, None, 1, 'e', [], {},
           {'code': 1, 'message': 'm'}, {'code': 1, 'message': 'm', 'data': None}, {'code': -32601, 'message': 'x', 'data': [1]},
           {'code': '1', 'message': 'm'}, {'code': 1}, {'message': 'm'}, {'code': 1.0, 'message': 'm'},
@@ -115,6 +116,14 @@ def same_error(err, e):
 
 # ---- E1 parts ----------------------------------------------------------------------------------------
 def gen_cases(ctx):
+    yield from gen_base(ctx, MEMBER, True)
+    # the same inputs (smaller member alphabets, no histories) in a process that turns warnings into errors (python -W error / pytest
+    # filterwarnings=error): a warning the library emits while deserialising would leave as an exception of another type
+    for case in gen_base(ctx, MEMBER_S, False):
+        yield dict(case, werr=True)
+
+
+def gen_base(ctx, MEMBER, full):
     for j, i, m, p in itertools.product(MEMBER, MEMBER, MEMBER, MEMBER):
         yield dict(part='request', doc=mk(jsonrpc=j, id=i, method=m, params=p))
     for j, i, r, e in itertools.product(MEMBER, MEMBER, MEMBER, ERRORS):
@@ -122,7 +131,7 @@ def gen_cases(ctx):
     for c, m, d in itertools.product(MEMBER + [2 ** 70, -32601, -32000, -32000.0, -32000.5], MEMBER, MEMBER):
         yield dict(part='error', doc=mk(code=c, message=m, data=d))
     # members nested deeply (below what json.loads itself accepts): deserialisation never walks into params / result / data
-    for depth in (100, 400, 600, 900, 1200, 1400):
+    for depth in (100, 400, 600, 900, 1200, 1400) if full else ():
         yield dict(part='deep', depth=depth)
     for v in NONOBJ:
         for part in ('request', 'response', 'error', 'batchreq', 'batchresp'):
@@ -152,7 +161,7 @@ def gen_cases(ctx):
     for j, i, e, r in itertools.product(['2.0', '1.0', A, 2], [A, None, 1, 0], ERRORS, [A, None, 1]):
         yield dict(part='batchresp', doc=mk(jsonrpc=j, id=i, error=e, result=r))
     # histories
-    for cls in ('BatchRequest', 'BatchResponse'):
+    for cls in ('BatchRequest', 'BatchResponse') if full else ():
         for strict in (True, False):
             for first in range(len(HIST_OPS)):
                 yield dict(part='history', cls=cls, strict=strict, first=first, budget=ctx.pick(5, 6))
@@ -432,7 +441,13 @@ RUN = dict(request=run_request, response=run_response, error=run_error, batchreq
 def run_case(case, rec):
     from mc.core import Recorder
     r = Recorder()
-    RUN[case['part']](case, r)
+    if case.get('werr'):
+        import warnings
+        with warnings.catch_warnings():
+            warnings.simplefilter('error')
+            RUN[case['part']](case, r)
+    else:
+        RUN[case['part']](case, r)
     if case['part'] != 'history':
         r.states += 1
         r.transitions += 1
